@@ -1,5 +1,5 @@
 """C10 — Constraints, ignored elements and extra start/end nodes behave as documented"""
-from contracts import c19
+from contracts import c19, c10
 
 LEVEL = "other"
 TRUSTED = []
@@ -8,7 +8,7 @@ EXPLANATION = ('Proved (PyVC, unbounded): the flow-value validator honours the i
 
 
 def units(tier):
-    return [u for u in c19.all_units() if "get_max_flow_value" in u.name]
+    return [u for u in c19.all_units() if "get_max_flow_value" in u.name] + c10.all_units()
 
 
 def bounded(tier, seed):
